@@ -933,12 +933,15 @@ def nn_block_specs():
     }
 
 
-def nn_block_inputs(seed: int, three_d: bool, shape_seed: int | None = None):
-    """inputs for one call: the shapes derive from `shape_seed` (default: seed), mask and data from `seed`"""
+def nn_block_inputs(seed: int, three_d: bool, shape_seed: int | None = None, coils: int | None = None):
+    """inputs for one call: the shapes derive from `shape_seed` (default: seed), mask and data from `seed`;
+    `coils` overrides the coil count (size ladder 8, 9, 16, 17, 20, 33 at an 8x8 matrix)"""
     gs = torch.Generator().manual_seed(seed if shape_seed is None else shape_seed)
     g = torch.Generator().manual_seed(seed)
     r = lambda *a: int(torch.randint(*a, (1,), generator=gs))  # noqa: E731
     n, c, h, w = r(1, 3), r(1, 4), 8 * r(1, 3), 8 * r(1, 3)
+    if coils is not None:
+        n, c, h, w = 1, coils, 8, 8
     sp = [r(2, 4), h, w] if three_d else [h, w]
     kshape = [n, c] + sp + [2]
     mshape = [n, 1] + ([1] if three_d else []) + [h, w, 1]
@@ -960,11 +963,11 @@ def nn_block_inputs(seed: int, three_d: bool, shape_seed: int | None = None):
     return kshape, m, S, full, y, junk, sel
 
 
-def _build_block(name: str, seed: int):
+def _build_block(name: str, seed: int, train: bool = False):
     build, call, mode, all_b_masked, three_d = nn_block_specs()[name]
     F, B = JunkForward(), RecBackward()
     torch.manual_seed(seed)                     # identical parameters for every instance built with the same seed
-    net = build(F, B).eval()
+    net = build(F, B).train(train)
     if mode == "hook-gated":
         gate = [False]
         F.gate = B.gate = gate
@@ -986,35 +989,62 @@ def _call_block(name, net, inputs, data_junk=False):
     return call(net, y, m, S)
 
 
-def nn_history(seed: int, three_d: bool):
+def nn_history(seed: int, three_d: bool, coils: int | None = None):
     """2-3 calls on ONE instance: same shape with another mask and other data, optionally another shape in between"""
-    a = nn_block_inputs(seed, three_d)
-    b = nn_block_inputs(seed + 1, three_d, shape_seed=seed)            # same shapes, different mask / data
+    a = nn_block_inputs(seed, three_d, coils=coils)
+    b = nn_block_inputs(seed + 1, three_d, shape_seed=seed, coils=coils)            # same shapes, different mask / data
     x = nn_block_inputs(seed + 2, three_d, shape_seed=seed + 5)        # (most often) different shapes
-    c = nn_block_inputs(seed + 3, three_d, shape_seed=seed)
+    c = nn_block_inputs(seed + 3, three_d, shape_seed=seed, coils=coils)
     return [[a, b], [a, x, b], [a, b, c]][seed % 3]
 
 
-def check_nn_block(name: str, seed: int):
+def _overwrite(t: torch.Tensor, new: torch.Tensor, how: int):
+    """replace the contents of the tensor OBJECT `t`: normal in-place copy, through shared numpy memory, through `.data`
+    (the last two leave the autograd version counter unchanged)"""
+    if how == 0:
+        t.copy_(new)
+    elif how == 1:
+        t.numpy()[...] = new.numpy()
+    else:
+        t.data.copy_(new)
+
+
+def check_nn_block(name: str, seed: int, train: bool = False, coils: int | None = None):
     """-> list of (key, what).  Every call of a history on one persistent instance must (i) equal, bit for bit, the
-    output of a fresh instance with identical parameters, and (ii) satisfy non-interference / exact zeros for ITS mask."""
+    output of a fresh instance with identical parameters, and (ii) satisfy non-interference / exact zeros for ITS mask.
+    The last step of the history re-uses the tensor OBJECTS of the previous call with new contents (new mask, new data
+    written in place / through numpy / through `.data`)."""
     mode, all_b_masked, three_d = nn_block_specs()[name][2:5]
     out = []
-    net, F, B = _build_block(name, seed)
+    net, F, B = _build_block(name, seed, train)
     with torch.no_grad():
-        for step, inputs in enumerate(nn_history(seed, three_d)):
+        hist = list(nn_history(seed, three_d, coils))
+        kshape, m, S, full, y, junk, sel = hist[-1]
+        nxt = nn_block_inputs(seed + 7, three_d, shape_seed=seed, coils=coils)
+        if nxt[0] == kshape and m.dtype == nxt[1].dtype:
+            hist.append("reuse-objects")
+        for step, inputs in enumerate(hist):
+            if inputs == "reuse-objects":                   # same tensor objects as the previous call, new contents
+                kshape, m, S, full, y, junk, sel = hist[step - 1]
+                _, m2, _, full2, y2, junk2, sel2 = nxt
+                for t, new in ((m, m2), (full, full2), (y, y2), (sel, sel2)):
+                    _overwrite(t, new, (seed + step) % 3)
+                inputs = (kshape, m, S, full, y, junk, sel)
             kshape, m, S, full, y, junk, sel = inputs
             F.sel = F.junk = None
             B.seen.clear()
+            torch.manual_seed(seed + step)
             o1 = _call_block(name, net, inputs)
             seen = list(B.seen)
-            fresh, _, _ = _build_block(name, seed)
-            of = _call_block(name, fresh, inputs)
+            fresh, _, _ = _build_block(name, seed, train)
+            torch.manual_seed(seed + step)
+            of = _call_block(name, fresh, tuple(t.clone() if isinstance(t, torch.Tensor) else t for t in inputs))
             if _bits(o1).shape != _bits(of).shape or (_bits(o1) != _bits(of)).any():
                 out.append((f"nn-{name}-depends-on-call-history",
                             f"{name}: call #{step + 1} on a reused instance differs from a fresh instance with the same parameters "
                             f"(state such as a cached mask survives between calls)"))
             if mode == "block-data":
+                torch.manual_seed(seed + step)
                 o2 = _call_block(name, net, inputs, data_junk=True)
                 if (_bits(o1) != _bits(o2)).any():
                     out.append((f"nn-{name}-depends-on-unsampled-data",
@@ -1022,6 +1052,7 @@ def check_nn_block(name: str, seed: int):
                 continue
             F.sel, F.junk = sel, junk
             calls_before = F.calls
+            torch.manual_seed(seed + step)
             o2 = _call_block(name, net, inputs)
             if F.calls == calls_before:
                 out.append((f"nn-{name}-no-forward-call", f"{name}: the forward operator was never called"))
@@ -1065,7 +1096,12 @@ def check_vsharp_engine(seed: int, three_d: bool):
     with torch.no_grad():
         for step, (kshape, m, S, full, y, junk, sel) in enumerate(nn_history(seed, three_d)):
             m = m.bool()
-            data = lambda: {"masked_kspace": y.clone(), "sampling_mask": m, "sensitivity_map": S.clone()}  # noqa: E731
+            pad = None
+            if (seed + step) % 2 == 0:                      # the optional `padding` entry of the batch
+                pad = torch.zeros_like(m, dtype=torch.float32)
+                pad[..., :2, :] = 1
+            data = lambda: dict({"masked_kspace": y.clone(), "sampling_mask": m, "sensitivity_map": S.clone()},  # noqa: E731
+                                **({} if pad is None else {"padding": pad.clone()}))
             Fe.sel = Fe.junk = None
             _, k1 = eng.forward_function(data())
             fresh, _ = make()
@@ -1080,6 +1116,11 @@ def check_vsharp_engine(seed: int, three_d: bool):
                             f"{name}Engine.forward_function: output k-space changes with the predicted k-space at sampled positions"))
             if not torch.equal(k1[~sel], y[~sel]):
                 out.append((f"nn-{name}Engine-alters-sampled", f"{name}Engine.forward_function: sampled k-space values are altered"))
+            if pad is not None:
+                psel = (pad == 1).expand(kshape) & sel          # unsampled positions inside the zero-padding
+                if (_bits(k1)[psel.numpy()] != 0).any():
+                    out.append((f"nn-{name}Engine-padding-leaks",
+                                f"{name}Engine.forward_function: the predicted k-space inside the zero-padding reaches the output"))
     return list(dict(out).items())
 
 
@@ -1088,17 +1129,25 @@ NN_BLOCKS = ["LPDNet", "XPDNet", "JointICNet", "KIKINet", "VSharpNet", "VSharpNe
 
 
 def oracle_nn_blocks(ctx: Ctx, deep: bool):
+    import warnings
+
     rng = ctx.rng
     for name in NN_BLOCKS:
-        for j in range(ctx.budget(3, 24) * (2 if deep else 1)):
+        for j in range(ctx.budget(6, 40) * (2 if deep else 1)):
             seed = rng.randrange(1, 2 ** 20)
-            ctx.count(("o-nn", name, seed), seed % 7 != 0, bucket=f"oracle/nn/{name}")
+            train = j % 2 == 1                                  # module paths in evaluation AND training mode
+            coils = None if j % 3 != 2 else rng.choice([8, 9, 16, 17, 20, 33])     # coil-count ladder at an 8x8 matrix
+            ctx.count(("o-nn", name, seed, train, coils), seed % 7 != 0,
+                      bucket=f"oracle/nn/{name}/{'train' if train else 'eval'}" + (f"/coils={coils}" if coils else ""))
             try:
-                res = check_nn_block(name, seed)
+                with warnings.catch_warnings():
+                    warnings.simplefilter("ignore")
+                    res = check_nn_block(name, seed, train, coils)
             except Exception as e:  # noqa: BLE001
                 res = [(f"nn-{name}-raises", f"{name} raises {err_name(e)}: {str(e)[:200]}")]
             for key, what in res:
-                yield Violation(key, what, {"op": "nn_block", "block": name, "seed": seed})
+                yield Violation(key, what + f" [mode={'train' if train else 'eval'}, coils={coils or 'small'}]",
+                                {"op": "nn_block", "block": name, "seed": seed, "train": train, "coils": coils})
     for three_d in (False, True):
         for j in range(ctx.budget(2, 12)):
             seed = rng.randrange(1, 2 ** 20)
@@ -1119,7 +1168,7 @@ def replay(rep: dict) -> bool:
     op = rep.get("op")
     try:
         if op == "nn_block":
-            return bool(check_nn_block(rep["block"], rep["seed"]))
+            return bool(check_nn_block(rep["block"], rep["seed"], rep.get("train", False), rep.get("coils")))
         if op == "nn_engine":
             return bool(check_vsharp_engine(rep["seed"], rep["three_d"]))
         if op == "apply_mask":
